@@ -8,6 +8,7 @@ CONSTANTS
   Deviations = {"WsRemoveKeepsChild"}
   MaxLevel = 4
   Acts = {"Populate", "AddHole", "AddDepthData", "AddIntervalData", "SetValues", "Rename", "RemoveDataViaParent", "RemoveDataViaWorkspace", "RemoveHoleViaParent", "RemoveHoleViaWorkspace", "RemovePropertyGroup", "AddValuesToTable", "Reopen", "CopyGroup"}
+  TrackSession = FALSE
   Kind = "float"
 VIEW vw
 INVARIANT KeysMatchChildren
